@@ -34,6 +34,13 @@ fn shape(p: &mut Profile, r: &mut Rng) {
 
 /// which violations of the shared engine are violations of C11 as well
 fn claim(viol: &Violation, op: &Op, pre: &World, _info: &StepInfo) -> Option<Violation> {
+    // an element that comes into being with a key twice, or with its entries out of place (parser,
+    // `fixed` helper), does not have map-like views either
+    if matches!(op, Op::Xotify { .. } | Op::Parse { .. }) {
+        let about_maps = viol.property == "C04"
+            && (matches!(viol.class, "category-order" | "duplicate-key") || (viol.class == "accessor-disagrees" && (viol.msg.contains("get_attribute") || viol.msg.contains("get_namespace") || viol.msg.contains("attribute_nodes"))));
+        return if about_maps { Some(v("model-mismatch-map", format!("after {}: {}", op.name(), viol.msg))) } else { None };
+    }
     if viol.property != "C05" && !(viol.property == "C04" && matches!(viol.class, "category-order" | "duplicate-key")) {
         return None;
     }
